@@ -281,6 +281,8 @@ def cbit(v) -> F:
 class ABits:
     """sequence of bits of known length; kind: 'ba' bitarray, 'bytes', 'np' numpy 1-D ints, 'list'"""
 
+    frozen = False   # frozenbitarray: every in-place operation raises TypeError; operators, slices and copy() keep the type
+
     def __init__(self, items, kind="ba", endian="big"):
         self.items = list(items)
         self.kind = kind
@@ -290,10 +292,20 @@ class ABits:
         return len(self.items)
 
     def copy(self, kind=None):
-        return ABits(self.items, kind or self.kind, self.endian)
+        r = ABits(self.items, kind or self.kind, self.endian)
+        if self.frozen and r.kind == self.kind:
+            r.frozen = True
+        return r
 
     def __repr__(self):
         return f"ABits[{self.kind},{len(self.items)}]"
+
+
+def _keep_frozen(src, res):
+    """operators, slices and copies of a frozenbitarray are frozenbitarrays again"""
+    if isinstance(src, ABits) and src.frozen and isinstance(res, ABits) and res is not src and res.kind == "ba":
+        res.frozen = True
+    return res
 
 
 class AInt:
@@ -752,6 +764,10 @@ class Interp:
         i = self.atoms.get(name)
         return self.st.lin.reduce(F(1 << i, 0))
 
+    def raw_atom(self, name) -> F:
+        """the input bit itself, NOT rewritten by what the current path has learnt (for reference forms built outside a path)"""
+        return F(1 << self.atoms.get(name), 0)
+
     def simp(self, b):
         if isinstance(b, AFin):
             if not any(a in self.st.subst for a in b.atoms):
@@ -855,6 +871,11 @@ class Interp:
         if isinstance(v, AFin):
             v2 = self.simp_fin(v)
             if isinstance(v2, AFin):
+                if all(t is True or t is False for t in v2.table):
+                    # a truth value that is an AFFINE function of a few input bits (parity of a masked word): one linear decision
+                    b = fin_to_bit(v2)
+                    if isinstance(b, F):
+                        return not self.decide_eq([b], 0, label)
                 raise NeedCases(v2.atoms)
             return bool(v2)
         if isinstance(v, ACond):
@@ -1026,7 +1047,9 @@ class Interp:
                 return False
         return True
 
-    def enum_lookup(self, ci: ClassInfo, v):
+    def enum_lookup(self, ci: ClassInfo, v, via_map=None, default=None):
+        """Enum(v); via_map='index' / 'get': Enum._value2member_map_[v] / .get(v, default) — the same member for a defined value,
+        but _missing_ is never consulted and an undefined value ends in KeyError / the default"""
         members = self.repo.enum_members(ci)
         if isinstance(v, tuple):
             def conc(x):
@@ -1048,7 +1071,7 @@ class Interp:
             if forms is not None and all(isinstance(f, F) and f.is_const for f in forms):
                 v = int("".join(str(f.c) for f in forms) or "0", 2)
             else:
-                if getattr(self, "exact_enum_folding", False) and forms is not None and self.repo.find_method(ci, "_missing_") is not None:
+                if via_map is None and getattr(self, "exact_enum_folding", False) and forms is not None and self.repo.find_method(ci, "_missing_") is not None:
                     # reserved-folding enum over a few bit atoms: the exact finite function value -> member
                     acc = set()
                     try:
@@ -1060,7 +1083,7 @@ class Interp:
                             return fin_lift(lambda x: self.enum_lookup(ci, x), AInt(list(reversed(forms))))
                         except PathRaise:
                             pass
-                if forms is not None and self.missing_may_return_regular_member(ci):
+                if via_map is None and forms is not None and self.missing_may_return_regular_member(ci):
                     # _missing_ can hand out ordinary members (tolerant matching ...): the lazy "member <=> equal value" view would
                     # be wrong, so the lookup is resolved here: exact match with a member value first, _missing_ interpreted otherwise
                     for m in members.values():
@@ -1071,7 +1094,7 @@ class Interp:
                     if r is None:
                         raise PathRaise("ValueError", f"not a valid {ci.name}")
                     return r
-                if forms is not None and getattr(self, "explore_undefined_enums", False) and self.missing_never_returns(ci):
+                if forms is not None and getattr(self, "explore_undefined_enums", False) and (via_map is not None or self.missing_never_returns(ci)):
                     # an enumeration without _missing_ raises ValueError for an undefined value: that exit is a path of its own
                     # (a caller may swallow the exception), taken when some value of these bits is undefined
                     defined = {m.value for m in members.values() if isinstance(m.value, int) and not isinstance(m.value, bool)}
@@ -1097,7 +1120,9 @@ class Interp:
                             self.st.conds[ck] = self.st.choose(f"{ci.name} undefined")
                         if self.st.conds[ck]:
                             self.st.__dict__.setdefault("wf_undefined", []).append((ci.qualname, tuple(forms), frozenset(defined)))
-                            raise PathRaise("ValueError", f"not a valid {ci.name}")
+                            if via_map == "get":
+                                return default
+                            raise PathRaise("KeyError" if via_map else "ValueError", f"not a valid {ci.name}")
                 if forms is not None:
                     # the lazy view ASSUMES a defined value (well-formed input); remembered, so that a path which later pins the
                     # bits to an undefined value is recognised as outside the assumption (PathState.infeasible)
@@ -1163,9 +1188,13 @@ class Frame:
 
     def st_AugAssign(self, st):
         cur = self.ev(_load(st.target))
+        if isinstance(cur, ABits) and cur.frozen:
+            raise PathRaise("TypeError", f"frozenbitarray is immutable (augmented assignment) at {self.fi.module.relpath}:{st.lineno}")
         v = self.binop(st.op, cur, self.ev(st.value), st)
-        if isinstance(st.op, ast.Add) and isinstance(cur, ABits) and isinstance(v, ABits) and isinstance(st.target, ast.Name) and False:
-            pass
+        if isinstance(cur, ABits) and cur.kind in ("ba", "list", "np") and isinstance(v, ABits) and v.kind == cur.kind and v is not cur:
+            # bitarray / list / numpy arrays are updated IN PLACE by augmented assignment: every alias of the object sees the result
+            cur.items[:] = v.items
+            v = cur
         self.assign(st.target, v)
 
     def st_If(self, st):
@@ -1400,11 +1429,19 @@ class Frame:
 
     def st_Raise(self, st):
         name = "Exception"
+        if st.exc is None:
+            # bare `raise` inside a handler: the exception being handled goes on
+            cur = getattr(self, "handling", [])
+            if cur:
+                raise PathRaise(cur[-1].exc, cur[-1].msg)
+            raise PathRaise("RuntimeError", f"no active exception to re-raise at {self.fi.module.relpath}:{st.lineno}")
         if st.exc is not None:
             e = st.exc
             if isinstance(e, ast.Call):
                 e = e.func
             name = ast.unparse(e)
+            if isinstance(e, ast.Name) and getattr(self.env.get(e.id), "exc_class", None):
+                name = self.env[e.id].exc_class          # `except X as err: ... raise err`
         raise PathRaise(name, f"{self.fi.module.relpath}:{st.lineno}")
 
     def st_For(self, st):
@@ -1459,8 +1496,14 @@ class Frame:
                         or (e.exc in ("OverflowError", "ZeroDivisionError", "FloatingPointError") and "ArithmeticError" in names) \
                         or (e.exc in ("UnicodeDecodeError", "UnicodeEncodeError", "UnicodeError") and ("ValueError" in names or "UnicodeError" in names)):
                     if h.name:
-                        self.env[h.name] = self.I.opaque("exception object")
-                    self.exec_block(h.body)
+                        eo = self.I.opaque("exception object")
+                        eo.exc_class = e.exc
+                        self.env[h.name] = eo
+                    self.handling = getattr(self, "handling", []) + [e]
+                    try:
+                        self.exec_block(h.body)
+                    finally:
+                        self.handling = self.handling[:-1]
                     break
             else:
                 self.exec_block(st.finalbody)
@@ -1563,6 +1606,8 @@ class Frame:
 
     def store_sub(self, base, sl, v, node):
         i = self.idx(sl)
+        if isinstance(base, ABits) and base.frozen:
+            raise PathRaise("TypeError", f"frozenbitarray is immutable (item store) at {self.fi.module.relpath}:{getattr(node, 'lineno', 0)}")
         if isinstance(base, ABits):
             if isinstance(i, slice):
                 vals = self.to_bitlist(v, per_elem=base.kind != "bytes")
@@ -1948,7 +1993,7 @@ class Frame:
             if isinstance(v, int):
                 return ~v
             if isinstance(v, ABits):
-                return ABits([b ^ 1 for b in v.items], v.kind, v.endian)
+                return _keep_frozen(v, ABits([b ^ 1 for b in v.items], v.kind, v.endian))
             return self.I.opaque("~ of abstract int")
         if isinstance(n.op, ast.UAdd):
             return v
@@ -1959,7 +2004,7 @@ class Frame:
 
     def binop(self, op, l, r, node):
         from . import bitabs_models as M
-        return M.binop(self, op, l, r, node)
+        return _keep_frozen(l, M.binop(self, op, l, r, node))
 
     def ev_Compare(self, n):
         from . import bitabs_models as M
@@ -1982,7 +2027,7 @@ class Frame:
     def ev_Subscript(self, n):
         from . import bitabs_models as M
         base = self.ev(n.value)
-        return M.subscript(self, base, n.slice, n)
+        return _keep_frozen(base, M.subscript(self, base, n.slice, n))
 
     def ev_Call(self, n):
         from . import bitabs_models as M
